@@ -190,8 +190,15 @@ def scenario(run, rng, origin, chain, final_mode, pv, hook_log):
     cancelled = []       # handlers that disconnected after a reconnect
     tripped = []
 
+    one_shot = rng.random() < 0.5
+
     def final_returns(exc, exc_info):
         calls.append(('final', type(exc).__name__, exc))
+        if one_shot:
+            # a final handler that takes itself out (for later sessions): the
+            # fault in progress is still the one it was installed for
+            conn.handle_exception = None
+            run.count('final_handlers_unregistering_themselves')
 
     def final_raises(exc, exc_info):
         calls.append(('final', type(exc).__name__, exc))
